@@ -14,36 +14,96 @@ _EXTRA = np.array([[0.7, -1.3, 0.4, 1.9, -0.6, 0.25, -1.1, 0.9], [-2.1, 0.3, 1.7
                    [1.15, 1.35, -0.95, 0.45, -1.75, 0.85, 0.35, -0.65]])
 
 
+class Fit:
+    """Per-component quadratic  f_r(x) = -(x-c_r)'L_r(x-c_r)/2 + n_r'(x-c_r) + k_r  fitted around c_r ~ the component's
+    own mode (so that all derived quantities are well conditioned)."""
+
+    def __init__(self, Lam, centers, nu_c, c_c):
+        self.Lam, self.centers, self.nu_c, self.c_c = Lam, centers, nu_c, c_c
+
+    def evaluate(self, x):
+        """values [R,N] and forward-error scales at points x [N,D]."""
+        vals, scs = [], []
+        for r in range(self.Lam.shape[0]):
+            v, s_ = oracle.ln_factor(self.Lam[r:r + 1], self.nu_c[r:r + 1], self.c_c[r:r + 1], x - self.centers[r][None])
+            vals.append(v[0])
+            scs.append(s_[0])
+        return np.stack(vals), np.stack(scs)
+
+    def ln_mass(self):
+        return oracle.ln_mass(self.Lam, self.nu_c, self.c_c)
+
+    def mean_cov(self):
+        d, cov = oracle.mean_cov(self.Lam, self.nu_c)
+        return self.centers + d, cov
+
+
+def _step(obj):
+    """probe step ~ the object's own length scale (a power of two; only the placement of the probe points depends on
+    it, the fit is verified on further points)."""
+    h = 1.0
+    try:
+        Lm = np.asarray(obj.Lambda, float)
+        t = float(np.mean(np.abs(np.einsum("rii->ri", Lm))))
+        if np.isfinite(t) and t > 0:
+            h = 2.0 ** np.clip(np.round(np.log2(1.0 / np.sqrt(t))), -40, 40)
+    except Exception:
+        pass
+    return h
+
+
 def fit_object(fails, label, obj, D, center=None):
-    """Returns (Lam, nu, c) fitted from obj.evaluate_ln, or None (failure appended)."""
-    center = np.zeros(D) if center is None else np.asarray(center, float)
+    """Returns a Fit recovered from obj.evaluate_ln only, or None (failure appended)."""
+    h = _step(obj)
+    c0 = np.zeros(D) if center is None else np.asarray(center, float)
 
-    def f(X):
-        return np.asarray(obj.evaluate_ln(J(X + center[None])))
+    def f_at(cvec):
+        return lambda X: np.asarray(obj.evaluate_ln(J(X + cvec[None])))
 
-    ok, fit = lib(fails, label + ".evaluate_ln", lambda: oracle.fit_quadratic(f, D))
+    ok, fit = lib(fails, label + ".evaluate_ln", lambda: oracle.fit_quadratic(f_at(c0), D, h=h))
     if not ok:
         return None
     Lam, nu, c = fit
     if not (np.all(np.isfinite(Lam)) and np.all(np.isfinite(nu)) and np.all(np.isfinite(c))):
         fails.append(Failure(label + ":nonfinite", f"{label}: evaluate_ln is not finite at the probe points"))
         return None
-    # verify: evaluate_ln really is this quadratic
-    X = _EXTRA[:, :D] if D <= 8 else np.resize(_EXTRA, (3, D))
-    want, scale = oracle.ln_factor(Lam, nu, c, X)
-    ok, got = lib(fails, label + ".evaluate_ln", lambda: f(X))
+    R = Lam.shape[0]
+    centers = np.tile(c0[None], (R, 1))
+    # second stage: re-fit every component around its own (estimated) mode, on the grid of the probe step
+    w = np.linalg.eigvalsh(0.5 * (Lam + np.swapaxes(Lam, 1, 2)))
+    if np.all(w > 0) and np.any(w.max(-1) / w.min(-1) > 1e6):
+        fails.append(Failure("excluded:ill_conditioned_derived", f"{label}: evaluated function has curvature with cond > 1e6"))
+        return None
+    if np.all(w > 0):
+        try:
+            est = c0[None] + np.einsum("rde,re->rd", oracle.inv_spd(0.5 * (Lam + np.swapaxes(Lam, 1, 2))), nu)
+        except Exception:
+            est = centers
+        if np.all(np.isfinite(est)) and np.max(np.abs(est - centers)) > 2 * h:
+            centers = np.round(est / h) * h
+            Ls, ns, cs = [], [], []
+            for r in range(R):
+                ok, fr = lib(fails, label + ".evaluate_ln", lambda: oracle.fit_quadratic(f_at(centers[r]), D, h=h))
+                if not ok:
+                    return None
+                Ls.append(fr[0][r]); ns.append(fr[1][r]); cs.append(fr[2][r])
+            Lam, nu, c = np.stack(Ls), np.stack(ns), np.stack(cs)
+            if not (np.all(np.isfinite(Lam)) and np.all(np.isfinite(nu)) and np.all(np.isfinite(c))):
+                fails.append(Failure(label + ":nonfinite", f"{label}: evaluate_ln is not finite at the probe points"))
+                return None
+    ft = Fit(Lam, centers, nu, c)
+    # verify: evaluate_ln really is this quadratic (points around the first component's centre)
+    X = (_EXTRA[:, :D] if D <= 8 else np.resize(_EXTRA, (3, D))) * h + centers[0][None]
+    want, scale = ft.evaluate(X)
+    ok, got = lib(fails, label + ".evaluate_ln", lambda: np.asarray(obj.evaluate_ln(J(X))))
     if ok:
         check(fails, label + ":not_quadratic", got, want, scale * 10, what=f"{label}: evaluate_ln is not the fitted quadratic")
-    # shift back to the original coordinates: f(x) = g(x - center)
-    if np.any(center != 0):
-        nu0 = nu + np.einsum("rde,e->rd", Lam, center)
-        c0 = c - np.einsum("rd,d->r", nu, center) - 0.5 * np.einsum("d,rde,e->r", center, Lam, center)
-        nu, c = nu0, c0
-    return Lam, nu, c
+    return ft
 
 
-def fitted_mass(fails, label, Lam, nu, c):
+def fitted_mass(fails, label, ft):
     """ln integral of the fitted quadratic; None if not integrable / ill conditioned."""
+    Lam = ft.Lam
     w = np.linalg.eigvalsh(0.5 * (Lam + np.swapaxes(Lam, 1, 2)))
     if np.any(w <= 0):
         fails.append(Failure(label + ":not_integrable", f"{label}: evaluated function has non-positive-definite curvature {w.min():.3g}"))
@@ -51,7 +111,7 @@ def fitted_mass(fails, label, Lam, nu, c):
     if np.any(w.max(-1) / w.min(-1) > 1e6):
         fails.append(Failure("excluded:ill_conditioned_derived", f"{label}: derived precision has cond > 1e6"))
         return None
-    return oracle.ln_mass(Lam, nu, c)
+    return ft.ln_mass()
 
 
 def check_density(fails, label, dens, D, moments=True, tol=1e-8):
@@ -59,40 +119,44 @@ def check_density(fails, label, dens, D, moments=True, tol=1e-8):
     function the object evaluates to."""
     ok, mu0 = lib(fails, label + ".mu", lambda: np.asarray(dens.mu))
     center = mu0[0] if ok and mu0 is not None and mu0.ndim == 2 and mu0.shape[1] == D and np.all(np.isfinite(mu0[0])) else None
-    # the fit is centred near the mass (first component's mean, rounded) to keep the probe values O(1)
+    # first guess of where the mass is (only the placement of the probe points; the fit re-centres itself)
     if center is not None:
-        center = np.round(center * 4) / 4
-    fit = fit_object(fails, label, dens, D, center)
-    if fit is None:
+        h = _step(dens)
+        center = np.round(center / h) * h
+    ft = fit_object(fails, label, dens, D, center)
+    if ft is None:
         return None
-    Lam, nu, c = fit
-    m = fitted_mass(fails, label, Lam, nu, c)
+    m = fitted_mass(fails, label, ft)
     if m is None:
         return None
     lnm, sc = m
     check(fails, label + ":integral_not_one", lnm, np.zeros_like(lnm), sc, tol=tol, what=f"{label}: ln of integral of evaluate()")
     if moments:
-        mean, cov = oracle.mean_cov(Lam, nu)
-        kap = oracle.cond(Lam)
+        # the fitted curvature carries the rounding of second differences of O(|f|) values: moments derived from it are
+        # judged at 10x the base tolerance
+        tol = 10 * tol
+        mean, cov = ft.mean_cov()
+        kap = oracle.cond(ft.Lam)
+        sd = np.sqrt(np.einsum("rii->ri", cov))
         ok, got = lib(fails, label + ".mu", lambda: np.asarray(dens.mu))
         if ok:
-            check(fails, label + ":mu_mismatch", got, mean, (1.0 + np.abs(mean)) * np.maximum(1, kap)[:, None] ** 0.5, tol=tol,
+            check(fails, label + ":mu_mismatch", got, mean, sd * np.maximum(1, kap)[:, None] + np.abs(mean) * 1e-6, tol=tol,
                   what=f"{label}: exposed mu vs mean of evaluated function")
         ok, got = lib(fails, label + ".Sigma", lambda: np.asarray(dens.Sigma))
         if ok:
             sn = np.abs(cov).max((1, 2))[:, None, None] * np.ones_like(cov)
-            check(fails, label + ":Sigma_mismatch", got, cov, sn * np.maximum(1, kap)[:, None, None] ** 0.5, tol=tol,
+            check(fails, label + ":Sigma_mismatch", got, cov, sn * np.maximum(1, kap)[:, None, None], tol=tol,
                   what=f"{label}: exposed Sigma vs covariance of evaluated function")
-    return Lam, nu, c
+    return ft
 
 
 def check_measure_mass(fails, label, m, D, tol=1e-8):
-    """Reported integral / log-integral (light and full) equal the integral of the evaluated function."""
-    fit = fit_object(fails, label, m, D)
-    if fit is None:
+    """Reported integral / log-integral (light and full) equal the integral of the evaluated function.
+    Returns (Fit, ln mass, scale) or None."""
+    ft = fit_object(fails, label, m, D)
+    if ft is None:
         return None
-    Lam, nu, c = fit
-    mm = fitted_mass(fails, label, Lam, nu, c)
+    mm = fitted_mass(fails, label, ft)
     if mm is None:
         return None
     lnm, sc = mm
@@ -110,5 +174,6 @@ def check_measure_mass(fails, label, m, D, tol=1e-8):
         if islog:
             check(fails, f"{label}:{name}", got, lnm, sc, tol=tol)
         else:
-            check(fails, f"{label}:{name}", got, np.exp(lnm), np.exp(lnm) * sc, tol=tol)
-    return Lam, nu, c, lnm, sc
+            with np.errstate(over="ignore"):
+                check(fails, f"{label}:{name}", got, np.exp(lnm), np.exp(lnm) * sc, tol=tol)
+    return ft, lnm, sc
